@@ -51,7 +51,7 @@ def generate(seed, tier="quick"):
         # several dimensions: samplers of a Levy-copula chain (scenarios.c02nd)
         from . import c02nd
 
-        proc = c02nd.generate_process(r)
+        proc = c02nd.enlarge(c02nd.generate_process(r), r)
         ops, ncopies = [], 1
         for _ in range(r.choice([30, 60])):
             k = r.random()
